@@ -48,7 +48,13 @@ type c07Sub struct {
 	req    map[string][]string // model: request map
 	perStr map[string][]string // model: per-stream request overrides (while the downstream exists)
 	mheld  map[string][]string // model: stream -> sorted selected track ids
-	other  int                 // non-ice messages of other kinds received in this step
+	// streams this subscriber aborted while a delayed announcement was still pending: the announcement may
+	// arrive after the abort and offer the stream again (it matches the request), or it may have arrived before
+	optional map[string]bool
+	// a per-stream request carried over to the stream that replaces it: it decides the replacement's first offer only
+	// (the new downstream starts without a per-stream request), later pushes follow the general request
+	inherit map[string][]string
+	other   int // non-ice messages of other kinds received in this step
 }
 
 type c07World struct {
@@ -132,7 +138,13 @@ func (w *c07World) modelPush(sub *c07Sub, st *c07Stream) {
 	if st.ended || w.where[sub.sc] != st.group || sub.sc == st.owner || sub.sc.closed {
 		return
 	}
-	sel := c07Select(w.effReq(sub, st), st)
+	delete(sub.optional, st.id)
+	req := w.effReq(sub, st)
+	if r, ok := sub.inherit[st.id]; ok {
+		req = r
+		delete(sub.inherit, st.id)
+	}
+	sel := c07Select(req, st)
 	if len(sel) == 0 {
 		delete(sub.mheld, st.id)
 		delete(sub.perStr, st.id)
@@ -309,6 +321,16 @@ func (w *c07World) check(step string, actor *simClient, selfOnly bool) {
 		for id := range sub.held {
 			if _, ok := sub.mheld[id]; !ok {
 				st := w.streams[id]
+				if sub.optional[id] && !st.ended && w.where[sc] == st.group {
+					// offered again by an announcement that was pending when the subscriber aborted
+					sel := c07Select(w.effReq(sub, st), st)
+					if !reflect.DeepEqual(sub.held[id].tracks, sel) {
+						t.Fatalf("C07 after %s: %s was offered tracks %v of stream %s again after its abort, its request %v selects %v", step, sc.id, sub.held[id].tracks, id, w.effReq(sub, st), sel)
+					}
+					sub.mheld[id] = sel
+					delete(sub.optional, id)
+					continue
+				}
 				t.Fatalf("C07 after %s: %s holds a downstream for stream %s (ended=%v, label %q) which it should not have (request %v) [%s]", step, sc.id, id, st.ended, st.label,
 					w.effReq(sub, st), strings.Join(w.log[max(0, len(w.log)-6):], " ; "))
 			}
@@ -390,7 +412,7 @@ func c07Machine(t *rapid.T, timer bool, rec *verifkit.Rec) {
 		}
 		for _, sc := range w.s.cs {
 			w.subs[sc] = &c07Sub{sc: sc, pcs: map[string]*webrtc.PeerConnection{}, held: map[string]*c07Held{}, closes: map[string]int{}, offers: map[string]int{},
-				req: map[string][]string{}, perStr: map[string][]string{}, mheld: map[string][]string{}}
+				req: map[string][]string{}, perStr: map[string][]string{}, mheld: map[string][]string{}, optional: map[string]bool{}, inherit: map[string][]string{}}
 		}
 		defer func() {
 			for _, sub := range w.subs {
@@ -432,6 +454,10 @@ func c07Machine(t *rapid.T, timer bool, rec *verifkit.Rec) {
 				delete(sub.pcs, id)
 			}
 			sub.held = map[string]*c07Held{}
+			if timer {
+				// offers are counted over a whole burst: what was offered before the departure does not count against it
+				sub.offers = map[string]int{}
+			}
 			w.where[sc] = ""
 		}
 		drawReq := func(label string) []string {
@@ -442,8 +468,31 @@ func c07Machine(t *rapid.T, timer bool, rec *verifkit.Rec) {
 			steps = rapid.IntRange(4, 14).Draw(t, "timerSteps")
 		}
 		racedPending := 0
+		// warm start: everybody is in the first group and requests the default streams, so that the drawn
+		// steps act on subscribers that hold something
+		type preStep struct {
+			who int
+			op  string
+		}
+		var pre []preStep
+		if timer || rapid.IntRange(0, 3).Draw(t, "warmStart") == 0 {
+			for k := range w.s.cs {
+				pre = append(pre, preStep{k, "join"})
+			}
+			for k := range w.s.cs {
+				pre = append(pre, preStep{k, "request"})
+			}
+			pre = append(pre, preStep{0, "publish"})
+		}
+		steps += len(pre)
 		for i := 0; i < steps; i++ {
-			sc := w.s.cs[rapid.IntRange(0, len(w.s.cs)-1).Draw(t, "who")]
+			forced := i < len(pre)
+			var sc *simClient
+			if forced {
+				sc = w.s.cs[pre[i].who]
+			} else {
+				sc = w.s.cs[rapid.IntRange(0, len(w.s.cs)-1).Draw(t, "who")]
+			}
 			if sc.closed {
 				continue
 			}
@@ -468,12 +517,20 @@ func c07Machine(t *rapid.T, timer bool, rec *verifkit.Rec) {
 					}
 				}
 			}
-			op := rapid.SampledFrom(ops).Draw(t, "op")
+			var op string
+			if forced {
+				op = pre[i].op
+			} else {
+				op = rapid.SampledFrom(ops).Draw(t, "op")
+			}
 			selfOnly := false
 			switch op {
 			case "join":
-				g := rapid.SampledFrom(w.gnames).Draw(t, "group")
-				user := rapid.SampledFrom([]string{"pres", "pres2", "op"}).Draw(t, "user")
+				g, user := w.gnames[0], "pres"
+				if !forced {
+					g = rapid.SampledFrom(w.gnames).Draw(t, "group")
+					user = rapid.SampledFrom([]string{"pres", "pres2", "op"}).Draw(t, "user")
+				}
 				w.logf("%s joins %s as %s", sc.id, g, user)
 				if err := w.s.send(sc, clientMessage{Type: "join", Kind: "join", Group: g, Username: &user, Password: "p"}); err != nil {
 					t.Fatalf("join: %v", err)
@@ -491,8 +548,14 @@ func c07Machine(t *rapid.T, timer bool, rec *verifkit.Rec) {
 				req := map[string]any{}
 				mreq := map[string][]string{}
 				for _, label := range []string{"", "camera", "screenshare"} {
-					if rapid.IntRange(0, 2).Draw(t, "hasLabel") != 0 {
+					if forced && label != "" {
+						continue
+					}
+					if forced || rapid.IntRange(0, 2).Draw(t, "hasLabel") != 0 {
 						r := drawReq("req")
+						if forced && rapid.Bool().Draw(t, "everything") {
+							r = []string{"audio", "video"}
+						}
 						l := make([]any, len(r))
 						for k := range r {
 							l[k] = r[k]
@@ -515,6 +578,9 @@ func c07Machine(t *rapid.T, timer bool, rec *verifkit.Rec) {
 			case "requestStream":
 				var ids []string
 				for id := range sub.mheld {
+					if _, have := sub.held[id]; !have && timer {
+						continue // announced but not delivered yet: the subscriber cannot name it
+					}
 					ids = append(ids, id)
 				}
 				sort.Strings(ids)
@@ -537,6 +603,9 @@ func c07Machine(t *rapid.T, timer bool, rec *verifkit.Rec) {
 			case "abort":
 				var ids []string
 				for id := range sub.mheld {
+					if _, have := sub.held[id]; !have && timer {
+						continue // announced but not delivered yet: the subscriber cannot name it
+					}
 					ids = append(ids, id)
 				}
 				sort.Strings(ids)
@@ -548,6 +617,9 @@ func c07Machine(t *rapid.T, timer bool, rec *verifkit.Rec) {
 				w.aborts++
 				delete(sub.mheld, id)
 				delete(sub.perStr, id)
+				if w.timer && w.pending {
+					sub.optional[id] = true
+				}
 				if err := w.s.send(sc, clientMessage{Type: "abort", Id: id}); err != nil {
 					t.Fatalf("abort: %v", err)
 				}
@@ -556,73 +628,88 @@ func c07Machine(t *rapid.T, timer bool, rec *verifkit.Rec) {
 				if !slices.Contains(sc.c.permissions, "present") {
 					continue
 				}
-				w.nstream++
-				id := fmt.Sprintf("s%d", w.nstream)
-				label := rapid.SampledFrom([]string{"camera", "camera", "screenshare", "other"}).Draw(t, "label")
-				na := rapid.IntRange(0, 2).Draw(t, "naudio")
-				nv := rapid.IntRange(0, 3).Draw(t, "nvideo")
-				if na+nv == 0 {
-					nv = 1
+				// with the timer, a replacement may itself be replaced before it was announced (a chain A <- B <- C)
+				chain := 1
+				if timer && op == "replace" {
+					chain = rapid.IntRange(1, 3).Draw(t, "replaceChain")
 				}
-				kinds := append(slices.Repeat([]string{"audio"}, na), slices.Repeat([]string{"video"}, nv)...)
-				kinds = rapid.Permutation(kinds).Draw(t, "trackOrder")
-				api, err := sc.c.group.API()
-				if err != nil {
-					t.Fatalf("VERIF-HARNESS-ERROR: %v", err)
-				}
-				pc, err := api.NewPeerConnection(webrtc.Configuration{})
-				if err != nil {
-					t.Fatalf("VERIF-HARNESS-ERROR: %v", err)
-				}
-				up := &rtpUpConnection{id: id, client: sc.c, label: label, pc: pc}
-				st := &c07Stream{id: id, owner: sc, group: w.where[sc], label: label, kinds: kinds, up: up}
-				for k, kind := range kinds {
-					mime := "audio/opus"
-					clock := uint32(48000)
-					if kind == "video" {
-						mime, clock = "video/VP8", 90000
+				var prevInChain *c07Stream
+				for link := 0; link < chain; link++ {
+					if link > 0 && w.pending {
+						racedPending++
 					}
-					tr := newFabUpTrack(up, mime, clock, 8, nil)
-					tid := fmt.Sprintf("%s-t%d", id, k)
-					pfield(tr.track, "id").Set(reflect.ValueOf(tid))
-					pfield(tr.track, "streamID").Set(reflect.ValueOf("stream-" + id))
-					up.tracks = append(up.tracks, tr)
-					st.tracks = append(st.tracks, tid)
-				}
-				replaced := ""
-				if op == "replace" {
-					old := myStreams[rapid.IntRange(0, len(myStreams)-1).Draw(t, "old")]
-					replaced = old.id
-					w.replaced++
-				}
-				sc.c.mu.Lock()
-				if sc.c.up == nil {
-					sc.c.up = map[string]*rtpUpConnection{}
-				}
-				sc.c.up[id] = up
-				sc.c.mu.Unlock()
-				w.streams[id] = st
-				w.logf("%s publishes %s label=%s tracks=%v replace=%q", sc.id, id, label, kinds, replaced)
-				if replaced != "" {
-					// as gotOffer does: the old stream is deleted without a push, the new one carries "replace"
-					up.replace = replaced
-					delUpConn(sc.c, replaced, sc.c.id, false)
-					old := w.streams[replaced]
-					w.endStream(old)
-					for _, o := range w.subs {
-						if r, ok := o.perStr[replaced]; ok {
-							// the per-stream request is inherited by the stream that replaces it
-							if _, held := o.mheld[replaced]; held {
-								o.perStr[id] = r
-							}
-							delete(o.perStr, replaced)
+					w.nstream++
+					id := fmt.Sprintf("s%d", w.nstream)
+					label := rapid.SampledFrom([]string{"camera", "camera", "screenshare", "other"}).Draw(t, "label")
+					na := rapid.IntRange(0, 2).Draw(t, "naudio")
+					nv := rapid.IntRange(0, 3).Draw(t, "nvideo")
+					if na+nv == 0 {
+						nv = 1
+					}
+					kinds := append(slices.Repeat([]string{"audio"}, na), slices.Repeat([]string{"video"}, nv)...)
+					kinds = rapid.Permutation(kinds).Draw(t, "trackOrder")
+					api, err := sc.c.group.API()
+					if err != nil {
+						t.Fatalf("VERIF-HARNESS-ERROR: %v", err)
+					}
+					pc, err := api.NewPeerConnection(webrtc.Configuration{})
+					if err != nil {
+						t.Fatalf("VERIF-HARNESS-ERROR: %v", err)
+					}
+					up := &rtpUpConnection{id: id, client: sc.c, label: label, pc: pc}
+					st := &c07Stream{id: id, owner: sc, group: w.where[sc], label: label, kinds: kinds, up: up}
+					for k, kind := range kinds {
+						mime := "audio/opus"
+						clock := uint32(48000)
+						if kind == "video" {
+							mime, clock = "video/VP8", 90000
 						}
-						delete(o.mheld, replaced)
+						tr := newFabUpTrack(up, mime, clock, 8, nil)
+						tid := fmt.Sprintf("%s-t%d", id, k)
+						pfield(tr.track, "id").Set(reflect.ValueOf(tid))
+						pfield(tr.track, "streamID").Set(reflect.ValueOf("stream-" + id))
+						up.tracks = append(up.tracks, tr)
+						st.tracks = append(st.tracks, tid)
 					}
-				}
-				w.push(up, sc)
-				for _, o := range members(st.group) {
-					w.modelPush(w.subs[o], st)
+					replaced := ""
+					if op == "replace" {
+						old := myStreams[rapid.IntRange(0, len(myStreams)-1).Draw(t, "old")]
+						if prevInChain != nil {
+							old = prevInChain
+						}
+						replaced = old.id
+						w.replaced++
+					}
+					sc.c.mu.Lock()
+					if sc.c.up == nil {
+						sc.c.up = map[string]*rtpUpConnection{}
+					}
+					sc.c.up[id] = up
+					sc.c.mu.Unlock()
+					w.streams[id] = st
+					w.logf("%s publishes %s label=%s tracks=%v replace=%q", sc.id, id, label, kinds, replaced)
+					if replaced != "" {
+						// as gotOffer does: the old stream is deleted without a push, the new one carries "replace"
+						up.replace = replaced
+						delUpConn(sc.c, replaced, sc.c.id, false)
+						old := w.streams[replaced]
+						w.endStream(old)
+						for _, o := range w.subs {
+							if r, ok := o.perStr[replaced]; ok {
+								// the per-stream request is inherited by the stream that replaces it
+								if _, held := o.mheld[replaced]; held {
+									o.inherit[id] = r
+								}
+								delete(o.perStr, replaced)
+							}
+							delete(o.mheld, replaced)
+						}
+					}
+					w.push(up, sc)
+					for _, o := range members(st.group) {
+						w.modelPush(w.subs[o], st)
+					}
+					prevInChain = st
 				}
 			case "addTrack":
 				st := myStreams[rapid.IntRange(0, len(myStreams)-1).Draw(t, "which")]
@@ -740,7 +827,7 @@ func c07Machine(t *rapid.T, timer bool, rec *verifkit.Rec) {
 					racedPending++
 				}
 				// in a burst: keep going without waiting for the timers (but always flush at the end)
-				if i < steps-1 && rapid.IntRange(0, 2).Draw(t, "burst") != 0 {
+				if !forced && i < steps-1 && rapid.IntRange(0, 2).Draw(t, "burst") != 0 {
 					w.s.pump()
 					for _, o := range w.s.cs {
 						w.handle(w.subs[o])
